@@ -141,6 +141,13 @@ class Phase:
                     rec["order"] = st.completion_order()
                     self.mp_orders.append(rec["order"])
                     rec["worker_status"] = [p.status for p in st.processes]
+                    # which query keys had a worker that the parent killed, or that died by itself
+                    excused = []
+                    for p in st.processes:
+                        key = next((a for a in p.args if isinstance(a, int) and not isinstance(a, bool)), None)
+                        if p.started and (p.terminated_at is not None or p.status not in (0, None)):
+                            excused.append(key)
+                    rec["excused_keys"] = excused
                 simmp.SIMMP.state = None
                 rec["vt"] = round(S.now - t0, 6)
                 S.vtime_total += S.now - t0
@@ -240,6 +247,9 @@ def judge_c13(doc, refs, cfgs, records):
                     out.append(_viol("C13:flagged_although_alone_within_budget", rec["op"], j, data=row, budget=rec["auto_inf"], multi=bool(op.get("multi"))))
                 elif not (stall and op.get("multi")):
                     out.append(_viol("C13:flagged_without_budget", rec["op"], j, data=row))
+                elif "excused_keys" in rec and None not in rec["excused_keys"] and int(key) not in rec["excused_keys"]:
+                    # only the rows of workers that were really killed (or died) may be flagged
+                    out.append(_viol("C13:healthy_worker_flagged", rec["op"], j, data=row, excused=rec["excused_keys"]))
                 elif row["result"] is not False:
                     out.append(_viol("C13:flagged_true", rec["op"], j, data=row))
                 continue
@@ -326,6 +336,8 @@ def plan_faults(doc, counts, rng):
         options = sorted(sites[o], key=lambda x: (str(x[0]), x[1]))
         if plan.get("sites"):
             options = [x for x in options if x[1] in plan["sites"]] or options
+        if plan.get("workers_only"):
+            options = [x for x in options if x[0] is not None] or options
         if kind == "jump":
             options = [x for x in options if x[1] == "clock"] or options
         elif kind == "unknown":
@@ -831,7 +843,7 @@ def generate(prop, verif_seed, idx, tier="quick", cls=None, recover=False):
             # reordering only: the sum of delays stays below the join window (10 virtual s)
             doc["fault_plan"] = {"n": g.choice([0, 1, 2, 3]), "kinds": ["slow"], "max_dur": 2.0}
         elif cls == "stall":
-            doc["fault_plan"] = {"n": g.choice([1, 2]), "kinds": ["slow", "exit_stall", "exit_stall"]}
+            doc["fault_plan"] = {"n": g.choice([1, 2, 3]), "kinds": ["slow", "exit_stall", "exit_stall"], "workers_only": True}
             # stalls need to exceed the join window of timeout+10 virtual seconds
             doc["knobs"]["stall"] = True
     else:
